@@ -43,15 +43,23 @@ pub open spec fn tiling(len: nat, m: Map<nat, SlotW>) -> bool {
 pub open spec fn rm(l: Seq<nat>, k: int) -> Seq<nat> { Seq::new((l.len() - 1) as nat, |i: int| if i < k { l[i] } else { l[i + 1] }) }
 pub open spec fn nxt(l: Seq<nat>, i: int) -> nat { if i + 1 < l.len() { l[i + 1] } else { 0 } }
 pub open spec fn first(l: Seq<nat>) -> nat { if l.len() > 0 { l[0] } else { 0 } }
-#[verifier::opaque]
-pub open spec fn list_ok(slots: Map<nat, SlotW>, l: Seq<nat>, c: int) -> bool {
-    &&& forall|i: int| 0 <= i < l.len() ==> {
+/// (each quantifier lives in its own named predicate: folding an opaque predicate whose body nests several quantifiers was
+/// unstable — all sub-assertions proved, the whole did not; see DESIGN 11.6)
+pub open spec fn list_members_ok(slots: Map<nat, SlotW>, l: Seq<nat>, c: int) -> bool {
+    forall|i: int| 0 <= i < l.len() ==> {
             &&& #[trigger] slots.dom().contains(l[i])
             &&& l[i] != 0
             &&& class_idx(slots[l[i]].size) == c
             &&& slots[l[i]].c == SlotC::Free(nxt(l, i))
         }
-    &&& forall|i: int, j: int| 0 <= i < j < l.len() ==> l[i] != l[j]
+}
+pub open spec fn list_distinct(l: Seq<nat>) -> bool {
+    forall|i: int, j: int| 0 <= i < j < l.len() ==> l[i] != l[j]
+}
+#[verifier::opaque]
+pub open spec fn list_ok(slots: Map<nat, SlotW>, l: Seq<nat>, c: int) -> bool {
+    &&& list_members_ok(slots, l, c)
+    &&& list_distinct(l)
 }
 pub open spec fn head_at(pm: PieceMgr, b: Seq<u8>, c: int) -> nat { le64_at(b, pm.free_list_offset@[0] as int + 8 * c) }
 pub open spec fn lists_ok(b: Seq<u8>, pm: PieceMgr, w: HeapW) -> bool {
@@ -200,6 +208,8 @@ pub proof fn lemma_list_untouched(slots: Map<nat, SlotW>, slots1: Map<nat, SlotW
     assert forall|i: int, j: int| 0 <= i < j < l.len() implies l[i] != l[j] by {
         lemma_list_member(slots, l, c, i);
     }
+    assert(list_members_ok(slots1, l, c));
+    assert(list_distinct(l));
     assert(list_ok(slots1, l, c)) by { reveal(list_ok); }
 }
 /// members of a free list are Free slots of that class; any other slot is on no such list
@@ -239,6 +249,8 @@ pub proof fn lemma_list_push(slots: Map<nat, SlotW>, l: Seq<nat>, c: int, o: nat
         lemma_list_member(slots, l, c, j - 1);
         if i > 0 { assert(l2[i] == l[i - 1]); }
     }
+    assert(list_members_ok(slots1, l2, c));
+    assert(list_distinct(l2));
     assert(list_ok(slots1, l2, c)) by { reveal(list_ok); }
 }
 /// unlink member k: predecessor (if any) points past it, the member itself leaves the list
@@ -283,6 +295,8 @@ pub proof fn lemma_list_unlink(slots: Map<nat, SlotW>, l: Seq<nat>, c: int, k: i
     }
     assert(l2.len() == l.len() - 1);
     if k == 0 { if l2.len() > 0 { assert(l2[0] == l[1]); } } else { assert(l2[0] == l[0]); }
+    assert(list_members_ok(slots2, l2, c));
+    assert(list_distinct(l2));
     assert(list_ok(slots2, l2, c)) by { reveal(list_ok); }
 }
 
